@@ -2,7 +2,7 @@
    Only statements, `exact <lemma>` and Print Assumptions live here. The definitions mentioned
    (accept, sized, grow, has_size, ...) unfold to coq/Gen definitions regenerated from
    internal/wasm/memory.go, internal/wasm/module.go and internal/wasm/binary/decoder.go. *)
-From Verif Require Import Lib.GoInt Gen.GenWasm Gen.GenBinary Rt.MemInst Proofs.MemInstP.
+From Verif Require Import Lib.GoInt Gen.GenWasm Gen.GenBinary Rt.MemInst Proofs.MemInstP Rt.MemInstX Proofs.MemInstXP.
 Open Scope Z_scope.
 
 (* accepted limits: min <= capacity <= max <= limit, for every (min, max?, limit, capacity-from-max) *)
@@ -91,3 +91,100 @@ Theorem C14_compiler_size_65536_refuted :
   exists m, wf m /\ pages m = 65536 /\ size_interp m = 65536 /\ size_compiler m = 0.
 Proof. exact compiler_size_65536. Qed.
 Print Assumptions C14_compiler_size_65536_refuted.
+
+(* ================================================================================================
+   Extension (Rt/MemInstX.v): the allocator is an ARBITRARY ORACLE (every grow of a history carries the answer
+   experimental.LinearMemory.Reallocate gives if it is asked; the answer at instantiation is in the configuration),
+   SHARED memories (flag sh), and TWO VIEWS (exporter / importer) of one memory.
+   ================================================================================================ *)
+
+(* accepted extended configurations: the base bounds; shared needs the threads feature and a declared maximum *)
+Theorem C14_x_config : forall x, xaccept x = true ->
+  accept (x_c x) = true /\ (x_shared x = true -> x_threads x = true /\ c_hasmax (x_c x) = true).
+Proof. exact xaccept_accept. Qed.
+Print Assumptions C14_x_config.
+
+(* instantiation: the memory starts at exactly the declared minimum, empty, well formed; it fails (Go panic, nothing
+   registered) exactly when an allocator refuses a non-empty minimum *)
+Theorem C14_x_init : forall x m, wf_cfg (x_c x) -> xaccept x = true -> xinit x = Some m ->
+  wf m /\ xwf (x_shared x) m /\ pages m = c_min (x_c x) /\ m_max m = pages_bound (x_c x) /\
+  m_min m = c_min (x_c x) /\ m_data m = [].
+Proof. exact xinit_wf. Qed.
+Print Assumptions C14_x_init.
+
+Theorem C14_x_init_fails_exactly : forall x, xinit x = None <->
+  c_alloc (x_c x) = true /\ x_min_ans x = false /\ m_len (mem_init (x_c x)) <> 0.
+Proof. exact xinit_none. Qed.
+Print Assumptions C14_x_init_fails_exactly.
+
+(* the allocator is asked exactly when a non-zero grow stays within the bound, and then for exactly the new size *)
+Theorem C14_x_allocator_asked_exactly : forall m d, wf m -> 0 <= d < 2 ^ 32 ->
+  (asks m d = true <-> m_alloc m = true /\ d <> 0 /\ pages m + d <= m_max m).
+Proof. exact asks_spec. Qed.
+Print Assumptions C14_x_allocator_asked_exactly.
+
+Theorem C14_x_allocator_request : forall m d, wf m -> 0 <= d < 2 ^ 32 -> asks m d = true ->
+  ask_size m d = (pages m + d) * 65536 /\ m_len m < ask_size m d <= m_max m * 65536.
+Proof. exact ask_size_spec. Qed.
+Print Assumptions C14_x_allocator_request.
+
+(* grow exactness for every flavour and every answer of the allocator: a refused grow fails and changes NOTHING;
+   otherwise it succeeds exactly when the result stays within the bound and returns the previous size; never panics
+   (in particular "shared memory cannot be grown" is unreachable) *)
+Theorem C14_x_grow_exact : forall sh m ans d, wf m -> xwf sh m -> 0 <= d < 2 ^ 32 ->
+  let '(m', r) := xgrow sh m ans d in
+  r <> Panic /\ xwf sh m' /\
+  (refused m ans d -> r = Fail /\ m' = m) /\
+  (~ refused m ans d ->
+     (pages m + d <= m_max m ->
+        r = Ok (pages m) /\ pages m' = pages m + d /\ m_data m' = m_data m /\ wf m' /\
+        m_max m' = m_max m /\ m_min m' = m_min m) /\
+     (m_max m < pages m + d -> r = Fail /\ m' = m)).
+Proof. exact xgrow_spec. Qed.
+Print Assumptions C14_x_grow_exact.
+
+Theorem C14_x_grow_contents : forall sh m ans d, wf m -> xwf sh m -> 0 <= d < 2 ^ 32 ->
+  let m' := fst (xgrow sh m ans d) in
+  (forall a, rd (m_data m') a = rd (m_data m) a) /\ (forall a, m_len m <= a -> rd (m_data m') a = 0).
+Proof. exact xgrow_contents. Qed.
+Print Assumptions C14_x_grow_contents.
+
+(* every reachable state of every flavour, for every history and every failure pattern of the allocator: the bounds,
+   whole pages, memory.size (interpreter) = Pages(), and nothing panicked on the way *)
+Theorem C14_x_invariant : forall x m0 ops, wf_cfg (x_c x) -> xaccept x = true -> xinit x = Some m0 ->
+  Forall xop_ok ops ->
+  let m := xfinal (x_shared x) m0 ops in
+  wf m /\
+  c_min (x_c x) <= pages m <= pages_bound (x_c x) /\ pages_bound (x_c x) <= 65536 /\
+  m_len m = pages m * 65536 /\ size_interp m = pages m /\
+  ~ In Panic (snd (xrun (x_shared x) m0 ops)).
+Proof. exact x_reachable_invariant. Qed.
+Print Assumptions C14_x_invariant.
+
+(* a refused grow anywhere in a history can be erased: final memory and all other observations are unchanged *)
+Theorem C14_x_refused_grow_erasure : forall sh m pre v d post,
+  asks (xfinal sh m pre) d = true ->
+  xfinal sh m (pre ++ XGrow v false d :: post) = xfinal sh m (pre ++ post) /\
+  exists o1 o2, length o1 = length pre /\
+    snd (xrun sh m (pre ++ post)) = o1 ++ o2 /\
+    snd (xrun sh m (pre ++ XGrow v false d :: post)) = o1 ++ Fail :: o2.
+Proof. exact xrun_refused_erasure. Qed.
+Print Assumptions C14_x_refused_grow_erasure.
+
+(* conservativity: with an agreeing allocator the extended model IS the base model (so every base theorem above
+   holds for it), for unshared memories unconditionally and for shared ones on every well-formed state: the shared
+   flavour has the same bounds, grow exactness, contents and host-access exactness *)
+Theorem C14_x_unshared_is_base : forall ops m, xrun false m (map lift ops) = run m ops.
+Proof. exact xrun_lift. Qed.
+Print Assumptions C14_x_unshared_is_base.
+
+Theorem C14_x_shared_is_base : forall ops m, wf m -> xwf true m -> Forall op_ok ops ->
+  xrun true m (map lift ops) = run m ops.
+Proof. exact xrun_shared_lift. Qed.
+Print Assumptions C14_x_shared_is_base.
+
+(* one memory, two views: which view (exporter / importer) each operation is made through cannot matter *)
+Theorem C14_x_views_agree : forall sh m ops1 ops2, map (set_view false) ops1 = map (set_view false) ops2 ->
+  xrun sh m ops1 = xrun sh m ops2.
+Proof. exact xrun_views. Qed.
+Print Assumptions C14_x_views_agree.
